@@ -31,6 +31,9 @@ cfg("MC_q_ep.cfg", "quick: 1 group, 2 classes, <=2 records/side, counts 1..2, en
 cfg("MC_q_grp.cfg", "quick: <=2 groups over 2 names, 2 classes, <=1 record/group, counts 1..2, endpoints {00,10}",
     UnitSeq="U2", GroupNames='{"g1","g2"}', MaxGroups=2, MaxRecs=1, MaxCount=2, EpVals="EpOne",
     ExportMode='"focus"', SampleMod=199)
+cfg("MC_q_grp3.cfg", "quick: <=3 groups over 3 names (repeated names adjacent / non-adjacent, missing, extra, permuted), "
+    "1 class, <=1 record/group, count 1", UnitSeq="U1", GroupNames='{"g1","g2","g3"}', MaxGroups=3, MaxRecs=1, MaxCount=1,
+    ExportMode='"focus"', SampleMod=7)
 cfg("MC_q_zero.cfg", "quick: manifest services with count 0 allowed (chain side 1..2), 2 classes, <=3 records",
     UnitSeq="U2", MaxRecs=3, MaxCount=2, MCountMin=0, ExportMode='"focus"', SampleMod=499)
 cfg("MC_q_act.cfg", "quick: tenant as actions (states are pairs), 2 classes, <=2 records, counts 1..2, endpoints {00,10,01}",
